@@ -17,6 +17,12 @@ def claim(pid, technique, text, ref):
 def na(pid, reason):
     NA[pid] = reason
 
+def also(pid, text):
+    """append a sentence to an existing claim (before its closing 'Does not decide' sentence, if any)"""
+    technique, old, ref = CLAIMED[pid]
+    i = old.rfind(" Does not decide")
+    CLAIMED[pid] = (technique, (old[:i] + " " + text + old[i:]) if i >= 0 else old + " " + text, ref)
+
 exec(open(os.path.join(os.path.dirname(__file__), "claims.py")).read())
 
 checks = []
